@@ -38,6 +38,9 @@ def occursBefore (fn : Fn) (a b : Mk) : Bool :=
   | some i, some j => i < j
   | _, _ => false
 
+/-- how many times marker `w` occurs in `fn` (over all its paths) -/
+def countOf (fn : Fn) (w : Mk) : Nat := ((marksOf fn).filter (·.what == w)).length
+
 def occurs (fn : Fn) (w : Mk) : Bool := (indexOfMark fn w).isSome
 
 /-- no lock is acquired while itself held, and no two locks are acquired in both orders -/
